@@ -12,5 +12,6 @@ CONSTANTS
   SkipReset = TRUE
   ExportMod = 48
   ExportRem = 1
+  ExportSig = TRUE
 INVARIANTS ImplSatisfiesProp HeapSane NoLeak NoFlags Export
 CHECK_DEADLOCK FALSE
